@@ -97,7 +97,7 @@ fn gen(r: &mut Rng) -> (Vec<u8>, Msg) {
 pub fn run(ctx: &Ctx) -> Report {
     let mut rep = Report::new();
     let mut r = ctx.rng("c07");
-    let n = ctx.count(200_000, 5_000_000);
+    let n = ctx.count(1_000_000, 10_000_000);
     rep.need("roundtrips", 10_000);
     for k in 0..n {
         let (bytes, reference) = gen(&mut r);
@@ -153,7 +153,7 @@ pub fn run(ctx: &Ctx) -> Report {
         }
     }
     rep.exhaustive_parts.push(format!("all bit vectors of length 0..={}", exhaustive_to));
-    for _ in 0..ctx.count(5_000, 100_000) {
+    for _ in 0..ctx.count(25_000, 200_000) {
         let n = r.usize(4097);
         let bits: Vec<bool> = (0..n).map(|_| r.chance(1, 3)).collect();
         check_bits(&mut rep, &bits);
